@@ -383,6 +383,14 @@ pub fn gen_cases(profile: &str, seed: u64, b: &Budget) -> Vec<Case> {
                         cfg = Cfg { block_size: bs, use_lpc: idx % 200 == 53, max_parameter: 14, ..Cfg::default() };
                         bps = 16;
                         wide = Some(1);
+                    } else if idx % 5 == 2 {
+                        // loud bursts in quiet low-width blocks: per-partition parameters at and above bits_per_sample - 1
+                        family = "burst".to_string();
+                        bps = [8usize, 12, 8, 16, 8][(idx / 5) % 5];
+                        bs = [256usize, 512, 1024, 320, 2048][(idx / 25) % 5];
+                        cfg = Cfg { block_size: bs, use_lpc: idx % 10 == 2, max_parameter: 14,
+                                    partitions: if idx % 15 == 2 { Some(16) } else { None }, fixed_max_order: [4usize, 0, 2][(idx / 5) % 3], ..Cfg::default() };
+                        wide = Some(1);
                     } else if idx % 5 == 1 {
                         // partition-order cost curve with a local minimum at the 64-sample scale and the
                         // global one far coarser; the signal is its own residual (fixed order 0 allowed only)
